@@ -255,6 +255,10 @@ fn run_e2_property(id: &str, thorough: bool, ev: &mut Evidence) {
     }
     let checks = check_bit(id);
     let cfgs = e2::configs(thorough);
+    for r in e2::run_lassos(id, checks, thorough) {
+        eprintln!("  {} : states={} transitions={} {:.1}s {} {}", r.family, r.stats.states, r.stats.transitions, r.wall_s, if r.complete { "complete" } else { "INCOMPLETE" }, r.note);
+        ev.families.push(r);
+    }
     for r in e2::run_configs(id, checks, &cfgs) {
         eprintln!("  {} : states={} transitions={} {:.1}s {} {}", r.family, r.stats.states, r.stats.transitions, r.wall_s, if r.complete { "complete" } else { "INCOMPLETE" }, r.note);
         ev.families.push(r);
